@@ -46,6 +46,7 @@ class Deep:
         """
         self.started = False
         self.__starting = False
+        self.__stop_wanted = False
         # start and shutdown are one step each: a second start (or a shutdown) that arrives while the first is still in
         # progress waits for it, it does not run alongside
         self._lifecycle_lock = threading.RLock()
@@ -68,10 +69,14 @@ class Deep:
             # finds the first one in progress, and does nothing, like any other repeated start)
             return
         self.__starting = True
+        self.__stop_wanted = False
         try:
             self.__do_start()
         finally:
             self.__starting = False
+        if self.__stop_wanted:
+            # a shutdown() arrived while we were starting, on this very thread (it could not wait): it is done now
+            self.__shutdown()
 
     def __do_start(self):
         # a start after a shutdown: the delivery pool accepts work again, and what is to be installed is installed anew
@@ -112,6 +117,11 @@ class Deep:
             self.__shutdown()
 
     def __shutdown(self):
+        if self.__starting:
+            # (the lock is re-entrant: this is the thread that is inside start() - a signal handler. Stopping an agent
+            # that is half started would leave the other half running: start() is told, and stops it when it is done)
+            self.__stop_wanted = True
+            return
         if not self.started:
             return
         self.trigger_handler.shutdown()
